@@ -143,6 +143,18 @@ def run_random_case(ctx, kind_, idx):
     try:
         with fp_watch(ctx):
             if mode == "function":
+                narrow = None
+                if rng.integers(0, 10) == 0:
+                    # abscissae kept in a narrow signed integer type and using its whole range (offsets around a set
+                    # point): the SPAN x[-1] - x[0] does not fit the type
+                    dt = [np.int8, np.int16, np.int32][int(rng.integers(0, 3))]
+                    lo_, hi_ = int(np.iinfo(dt).min), int(np.iinfo(dt).max)
+                    vals = np.unique(np.concatenate([[lo_ + int(rng.integers(0, 20)), hi_ - int(rng.integers(0, 20))],
+                                                     rng.integers(lo_, hi_, max(len(x) - 2, 1))]))
+                    narrow = vals.astype(dt)
+                    x = vals.astype(float)
+                    y = np.resize(y, len(x))
+                    info["x_storage"] = np.dtype(dt).name
                 l, r, lr, rr, knife = pick_bounds(rng, x)
                 if knife:
                     ctx.discard("ratio_bound_within_rounding_of_a_sample")
@@ -152,6 +164,9 @@ def run_random_case(ctx, kind_, idx):
                 kinds = ("array", "list", "int", "strided", "readonly", "tuple") + (() if (lr or rr) else ("series",))
                 xin, _k = gen.as_container(rng, x, allow=kinds)
                 yin, _k2 = gen.as_container(rng, y, allow=kinds)
+                if narrow is not None:
+                    xin, _k = narrow, "narrow signed integers"
+                    yin, _k2 = np.asarray(y, dtype=float), "array"
                 info.update({"left": l, "right": r, "ratios": [lr, rr], "containers": [_k, _k2]})
                 gx, gy = truncate(xin, yin, l, r) if not (lr or rr) and rng.integers(0, 2) else \
                     callform.call(rng, truncate, "process.truncate", [xin, yin, l, r],
